@@ -22,6 +22,9 @@
 //              static/dynamic patterns and ranks with extent values around 2^7, 2^8, 2^15, 2^16, 2^31, 2^32 (equal iff same
 //              rank and extents equal as integers, both operand orders).
 //
+// Also: "submdspan_extents" (every full_extent / index slice combination against [mdspan.sub.extents]) and, inside
+// mdarray_left, swap / copy- / move-assignment / move-construction between two mdarrays of different run-time shape.
+//
 // Not part of the check on this tree (declared but never defined, or ill-formed when instantiated; the first two are
 // probed at compile time, so they join the check as soon as they become defined):
 //   layout_stride::mapping::required_span_size(), ::is_exhaustive(); its converting constructor and operator==;
@@ -29,7 +32,9 @@
 //   (class template argument deduction of `array{}` fails); layout_transpose::mapping::is_(always_)contiguous();
 //   mdspan copy assignment (implicitly deleted: the class declares a move constructor); mdspan::operator[](i, j, ...)
 //   (needs C++23 multidimensional subscript); mdarray over layout_stride by size (needs required_span_size());
-//   submdspan (commented out in the library).
+//   submdspan (commented out in the library); submdspan_extents with strided_slice (static_assert) or pair-like slices
+//   (only integral-constant pairs over static extents are reachable, helper functions incomplete); mdspan swap /
+//   assignment (no operator=, so etl::swap does not compile); accessor_conjugate (linalg accessor, outside the property).
 //
 // The same source is compiled once per part with -DC19_TABLE="C19_types_<part>.inc": each TU instantiates a slice of the
 // type table (part 0 also checks the deduction guides, -DC19_CTAD).
@@ -371,6 +376,7 @@ int g_vals[max_points];
 }
 
 // element addresses (as offsets from the data handle) and the values read through the view
+int g_vbase = 1000; // the block under inspection holds g_vbase + i at element i
 [[gnu::noinline]] auto view_ok(char const* sub, Case const& k, Shape const& sh, ll const* st, int nacc, char const* what) -> bool
 {
     ll const P = prod(sh);
@@ -386,8 +392,8 @@ int g_vals[max_points];
                 return false;
             }
         }
-        if (g_vals[n] != 1000 + static_cast<int>(exp)) {
-            fail(sub, k, "%s: m%s reads %d, the element at data+%lld holds %d", what, ix_str(sh.rank, ix).c_str(), g_vals[n], exp, 1000 + static_cast<int>(exp));
+        if (g_vals[n] != g_vbase + static_cast<int>(exp)) {
+            fail(sub, k, "%s: m%s reads %d, the element at data+%lld holds %d", what, ix_str(sh.rank, ix).c_str(), g_vals[n], exp, g_vbase + static_cast<int>(exp));
             return false;
         }
         ++n;
@@ -451,6 +457,66 @@ auto make_block(ll n) -> std::unique_ptr<int[]>
 void last_index(Shape const& sh, int* ix)
 {
     for (int r = 0; r < sh.rank; ++r) { ix[r] = static_cast<int>(sh.e[r]) - 1; }
+}
+
+// a second run-time shape for the same extents type: every dynamic extent changed (index space still representable)
+auto other_shape(Shape const& sh, std::size_t const* st, unsigned long long imaxv) -> Shape
+{
+    for (int attempt = 0; attempt < 3; ++attempt) {
+        Shape o = sh;
+        int j   = 0;
+        for (int r = 0; r < sh.rank; ++r) {
+            if (st[r] != D) { continue; }
+            o.e[r] = attempt == 0 ? (sh.e[r] + 1 + j) % 4 : attempt == 1 ? (sh.e[r] == 1 ? 2 : 1) : (sh.e[r] == 0 ? 1 : 0);
+            ++j;
+        }
+        if (static_cast<unsigned long long>(prod(o)) <= imaxv) { return o; }
+    }
+    return sh;
+}
+auto same_shape(Shape const& a, Shape const& b) -> bool
+{
+    for (int r = 0; r < a.rank; ++r) {
+        if (a.e[r] != b.e[r]) { return false; }
+    }
+    return true;
+}
+// what submdspan_extents returned, copied out of the library
+struct SubExt {
+    int rank;
+    std::size_t st[4];
+    ll e[4];
+    bool same_index_type;
+};
+// [mdspan.sub.extents] for full_extent / index slices: the kept dimensions (mask bit r = dimension r is kept) in order,
+// each with the static extent and the run-time extent of the source dimension
+[[gnu::noinline]] auto subext_ok(Case const& k, Shape const& sh, std::size_t const* st, unsigned mask, SubExt const& got) -> bool
+{
+    int kept[4] = {0, 0, 0, 0};
+    int n       = 0;
+    for (int r = 0; r < sh.rank; ++r) {
+        if (((mask >> r) & 1U) != 0) { kept[n++] = r; }
+    }
+    std::string slices;
+    for (int r = 0; r < sh.rank; ++r) { slices += std::string(r != 0 ? "," : "") + (((mask >> r) & 1U) != 0 ? ":" : "i"); }
+    if (got.rank != n || !got.same_index_type) {
+        fail("submdspan_extents", k, "submdspan_extents(%s): result has rank %d (index_type kept: %d), expected rank %d", slices.c_str(), got.rank, static_cast<int>(got.same_index_type), n);
+        return false;
+    }
+    for (int i = 0; i < n; ++i) {
+        if (got.e[i] != sh.e[kept[i]] || got.st[i] != st[kept[i]]) {
+            ll ee[4] = {0, 0, 0, 0};
+            std::string es, gs;
+            for (int q = 0; q < n; ++q) {
+                ee[q] = sh.e[kept[q]];
+                es += std::string(q != 0 ? "," : "") + (st[kept[q]] == D ? "d" : std::to_string(st[kept[q]]));
+                gs += std::string(q != 0 ? "," : "") + (got.st[q] == D ? "d" : std::to_string(got.st[q]));
+            }
+            fail("submdspan_extents", k, "submdspan_extents(%s): result extents %s with static extents [%s], expected %s with static extents [%s]", slices.c_str(), arr_str(n, got.e).c_str(), gs.c_str(), arr_str(n, ee).c_str(), es.c_str());
+            return false;
+        }
+    }
+    return true;
 }
 
 // ------------------------------------------------------------------------------------------------ type helpers
@@ -903,8 +969,10 @@ void check_mdspan_lr(Case const& k, Shape const& sh)
         VIEW_FACTS("mdspan(ptr, span<IndexType const, rank>)", c5);
         MD const c6(base, M(e), etl::default_accessor<int>{});
         VIEW_FACTS("mdspan(ptr, mapping, accessor)", c6);
-        MD const c7(c6);
+        MD c7(c6);
         VIEW_FACTS("copy of an mdspan", c7);
+        MD const c8(std::move(c7));
+        VIEW_FACTS("move-constructed mdspan", c8);
     }
     if constexpr (E::rank_dynamic() > 0) {
         MD const dm;
@@ -962,6 +1030,62 @@ void check_mdspan_stride(Case const& k, Shape const& sh, StrideInfo const& si)
 }
 
 // ------------------------------------------------------------------------------------------------ 5. mdarray
+// swap / copy assignment / move assignment / move construction between two mdarrays of DIFFERENT run-time shape (all-static
+// types: same shape, different contents): afterwards extents, size, strides, required span, container and every element
+// address must be those of the source object.
+template <typename E, typename L>
+[[gnu::noinline]] void check_mdarray_transfer(char const* sub, Case const& k, Shape const& sh)
+{
+    using I          = typename E::index_type;
+    using A          = etl::mdarray<int, E, L, HeapBox<int>>;
+    constexpr auto R = E::rank();
+    std::size_t statics[4] = {D, D, D, D};
+    for (std::size_t r = 0; r < R; ++r) { statics[r] = E::static_extent(r); }
+    Shape const sh2 = other_shape(sh, statics, imax<I>());
+    vf::label("mdarray.transfer_between_different_shapes", !same_shape(sh, sh2));
+    ll const P1 = prod(sh);
+    ll const P2 = prod(sh2);
+    ll st1[4]   = {0, 0, 0, 0};
+    ll st2[4]   = {0, 0, 0, 0};
+    constexpr bool left = std::is_same_v<L, etl::layout_left>;
+    left ? left_strides(sh, st1) : right_strides(sh, st1);
+    left ? left_strides(sh2, st2) : right_strides(sh2, st2);
+    A a(make_all<E, int>(sh));
+    A b(make_all<E, int>(sh2));
+    for (ll i = 0; i < P1; ++i) { a.container_data()[i] = 1000 + static_cast<int>(i); }
+    for (ll i = 0; i < P2; ++i) { b.container_data()[i] = 5000 + static_cast<int>(i); }
+    int const* const pa = a.container_data();
+    int const* const pb = b.container_data();
+    // the object `x` must now describe shape `s` over a container of exactly prod(s) elements holding vbase + i
+    auto describes = [&](A& x, Shape const& s, ll const* st, int vbase, int const* same_block, char const* what) -> bool {
+        ll const P = prod(s);
+        if (static_cast<ll>(x.container_size()) != P || static_cast<ll>(x.mapping().required_span_size()) != P) {
+            fail(sub, k, "%s: container_size() = %lld, mapping().required_span_size() = %lld, expected %lld for extents %s", what, static_cast<ll>(x.container_size()), static_cast<ll>(x.mapping().required_span_size()), P, arr_str(s.rank, s.e).c_str());
+            return false;
+        }
+        int* const base = x.container_data();
+        if (!facts_ok(sub, k, s, st, R > 0, collect_facts(x, same_block != nullptr ? static_cast<void const*>(base) : nullptr, same_block, R > 0), what)) { return false; }
+        g_vbase        = vbase;
+        int const nacc = collect_view<I, R, true>(x, base, s, P);
+        bool const ok  = view_ok(sub, k, s, st, nacc, what);
+        g_vbase        = 1000;
+        return ok;
+    };
+    swap(a, b);
+    REQUIRE_OK(describes(a, sh2, st2, 5000, pb, "a after swap(a, b) [a: first shape, b: second shape]"));
+    REQUIRE_OK(describes(b, sh, st1, 1000, pa, "b after swap(a, b) [a: first shape, b: second shape]"));
+    A c(make_all<E, int>(sh)); // shape 1, zeros
+    c = a;                     // copy assignment from shape 2
+    CHECK(sub, k, c.container_data() != a.container_data() || P2 == 0, "copy-assigned mdarray shares its container with the source");
+    REQUIRE_OK(describes(c, sh2, st2, 5000, nullptr, "mdarray copy-assigned from an mdarray of another shape"));
+    REQUIRE_OK(describes(a, sh2, st2, 5000, pb, "source of a copy assignment"));
+    A d(make_all<E, int>(sh2)); // shape 2, zeros
+    d = std::move(b);           // move assignment from shape 1
+    REQUIRE_OK(describes(d, sh, st1, 1000, nullptr, "mdarray move-assigned from an mdarray of another shape"));
+    A f(std::move(d));
+    REQUIRE_OK(describes(f, sh, st1, 1000, nullptr, "move-constructed mdarray"));
+}
+
 template <typename E, typename L>
 void check_mdarray(Case const& k, Shape const& sh)
 {
@@ -1036,6 +1160,7 @@ void check_mdarray(Case const& k, Shape const& sh)
             CHECK(sub, k, o6 == P - 1 && o8 == P - 1 && v8 == 1000 + static_cast<int>(P - 1), "mdarray(extents, container) / copy: last multi-index refers to container_data()+%lld / +%lld, expected +%lld", o6, o8, P - 1);
         }
     }
+    if constexpr (left) { check_mdarray_transfer<E, L>(sub, k, sh); } // (swap/assignment do not depend on the layout: one layout keeps the compile time down)
     // etl::array as container (all-static extents)
     if constexpr (E::rank_dynamic() == 0) {
         constexpr std::size_t N = static_cast<std::size_t>(M{}.required_span_size());
@@ -1052,6 +1177,94 @@ void check_mdarray(Case const& k, Shape const& sh)
         }
     }
     vf::eval(sub);
+}
+
+// ------------------------------------------------------------------------------------------------ 6b. submdspan_extents
+// Every combination of full_extent / index slices (var = bit mask of the kept dimensions); index slices are `int` in even
+// and `size_t` in odd dimensions and select the last valid index.  Not part of the check: strided_slice (static_assert in
+// the library), pair-like slices (only usable for integral-constant pairs over static extents; helpers incomplete).
+template <unsigned Mask, std::size_t Dim>
+auto sub_slice(int const* idx)
+{
+    if constexpr (((Mask >> Dim) & 1U) != 0) {
+        return etl::full_extent;
+    } else if constexpr (Dim % 2 == 0) {
+        return idx[Dim];
+    } else {
+        return static_cast<std::size_t>(idx[Dim]);
+    }
+}
+template <typename E, unsigned Mask, std::size_t... Ds>
+auto collect_subext_impl(E const& e, int const* idx, std::index_sequence<Ds...> /*unused*/) -> SubExt
+{
+    auto const r = etl::submdspan_extents(e, sub_slice<Mask, Ds>(idx)...);
+    using SE     = std::remove_cv_t<decltype(r)>;
+    SubExt out{};
+    out.rank            = static_cast<int>(SE::rank());
+    out.same_index_type = std::is_same_v<typename SE::index_type, typename E::index_type>;
+    for (std::size_t i = 0; i < SE::rank(); ++i) {
+        out.st[i] = SE::static_extent(i);
+        out.e[i]  = static_cast<ll>(r.extent(i));
+    }
+    return out;
+}
+template <typename E, unsigned Mask>
+auto collect_subext(void const* e, int const* idx) -> SubExt
+{
+    return collect_subext_impl<E, Mask>(*static_cast<E const*>(e), idx, std::make_index_sequence<E::rank()>{});
+}
+using SubExtFn = SubExt (*)(void const*, int const*);
+// everything that does not depend on the extents type: which masks are admissible, the model, the bookkeeping
+void run_subext(Case const& k0, Shape const& sh, std::size_t const* statics, void const* e, SubExtFn const* fns)
+{
+    int idx[4] = {0, 0, 0, 0};
+    for (int r = 0; r < sh.rank; ++r) { idx[r] = sh.e[r] > 0 ? static_cast<int>(sh.e[r]) - 1 : 0; }
+    for (unsigned mask = 0; mask < (1U << sh.rank); ++mask) {
+        Case k = k0;
+        k.var  = static_cast<int>(mask);
+        if (!want("submdspan_extents", k)) { continue; }
+        int nkept       = 0;
+        int kept[4]     = {0, 0, 0, 0};
+        bool admissible = true;
+        for (int r = 0; r < sh.rank; ++r) {
+            if (((mask >> r) & 1U) != 0) {
+                kept[nkept++] = r;
+            } else if (sh.e[r] == 0) {
+                admissible = false; // precondition: an index slice must be < extent
+            }
+        }
+        if (!admissible) {
+            vf::count("submdspan_extents.skipped_index_into_empty_dimension");
+            continue;
+        }
+        bool palindrome = true;
+        bool square     = true;
+        for (int i = 0; i < nkept; ++i) {
+            palindrome = palindrome && statics[kept[i]] == statics[kept[nkept - 1 - i]];
+            square     = square && sh.e[kept[i]] == sh.e[kept[0]];
+        }
+        if (!palindrome && vf::ctx().excluded("submdspan_extents.static_order")) {
+            vf::excluded_known("submdspan_extents.static_order");
+            continue;
+        }
+        vf::Flight<Case> fl("submdspan_extents", k);
+        SubExt const got = fns[mask](e, idx);
+        if (!subext_ok(k, sh, statics, mask, got)) { return; }
+        vf::eval("submdspan_extents");
+        if (nkept >= 2 && (!square || !palindrome)) { vf::nontrivial_count(); }
+        vf::label("submdspan_extents.two_or_more_kept_non_square", nkept >= 2 && !square);
+        vf::label("submdspan_extents.kept_static_pattern_not_palindromic", !palindrome);
+    }
+}
+template <typename E>
+void check_submdspan_extents(Case const& k0, Shape const& sh)
+{
+    constexpr auto R = E::rank();
+    std::size_t statics[4] = {D, D, D, D};
+    for (std::size_t r = 0; r < R; ++r) { statics[r] = E::static_extent(r); }
+    E const e = make_all<E, int>(sh);
+    static constexpr auto fns = []<unsigned... Ms>(std::integer_sequence<unsigned, Ms...>) { return std::array<SubExtFn, sizeof...(Ms)>{&collect_subext<E, Ms>...}; }(std::make_integer_sequence<unsigned, (1U << R)>{});
+    run_subext(k0, sh, statics, &e, fns.data());
 }
 
 // ------------------------------------------------------------------------------------------------ 6. layout_transpose (rank 2)
@@ -1579,6 +1792,7 @@ struct TypeOps {
     void (*tr[2])(Case const&, Shape const&);     // layout_transpose<left/right> (rank 2 only, else null)
     void (*stride)(Case const&, Shape const&, StrideInfo const&);
     void (*mdstride)(Case const&, Shape const&, StrideInfo const&);
+    void (*subext)(Case const&, Shape const&); // submdspan_extents, all slice masks
 };
 // Level 2 (C19_TYPE): everything.  Level 1 (C19_TYPE_L, "light"): no mdspan<left/right> and mdarray suites (they are 57 % of
 // the compile time of a type).  Level 0 (C19_TYPE_C, "core"): extents + layout_left/right mappings only.  The
@@ -1603,6 +1817,7 @@ auto ops_for(char const* name) -> TypeOps
     if constexpr (Level >= 1) {
         t.stride   = &check_stride<E>;
         t.mdstride = &check_mdspan_stride<E>;
+        t.subext   = &check_submdspan_extents<E>;
         if constexpr (E::rank() == 2) {
             t.tr[0] = &check_transpose<E, etl::layout_left>;
             t.tr[1] = &check_transpose<E, etl::layout_right>;
@@ -1677,6 +1892,7 @@ void run_type(TypeOps const& t)
                 nt(false);
             }
         }
+        if (t.subext != nullptr && (!g_ctl.filter || g_ctl.fsub == "submdspan_extents")) { t.subext(k, sh); }
         int const nvar = R == 0 ? 1 : nperms(R) * 3;
         for (int v = 0; v < nvar; ++v) {
             Case kv = k;
